@@ -121,7 +121,23 @@ def h_minmax(name, form, elems, keyed):
     return fn(xs, **kw)
 
 
-def h_crc(kind, poly, init, inv, steps):
+class compiler_invert:
+    """`~x` on a Signal/Temporary: the compiler front end maps ast.Invert to `__inv__` (_prepare_ast.py l.1222);
+    TypeQualifier defines `__inv__` but no `__invert__`, so the python-level `~signal` raises TypeError."""
+
+    def __enter__(self):
+        from cohdl._core._type_qualifier import TypeQualifier
+        self.cls = TypeQualifier
+        self.had = "__invert__" in TypeQualifier.__dict__
+        if not self.had:
+            TypeQualifier.__invert__ = lambda s: s.__inv__()
+
+    def __exit__(self, *a):
+        if not self.had:
+            del self.cls.__invert__
+
+
+def h_crc(kind, poly, init, inv, steps, raw=0):
     """steps: list of lists of bits; one update / update_multiple per inner list"""
     c = BitwiseCrc(BV(poly), initial_value=BV(init), invert_result=bool(inv))
     if kind == "calc":
@@ -133,13 +149,17 @@ def h_crc(kind, poly, init, inv, steps):
                 c.update(Bit(bool(b)))
         else:
             c.update_multiple(*[Bit(bool(b)) for b in data])
+    if inv and not raw:
+        with compiler_invert():
+            return c.result()
     return c.result()
 
 
 def h_count(kind, elems, value, via):
-    xs = [VAL(e) for e in elems]
     if kind == "bv":
         xs = VAL(elems)          # a BitVector container, value is a bit
+    else:
+        xs = [VAL(e) for e in elems]
     v = VAL(value)
     if via == "value":
         return std.count(xs, v)
@@ -174,9 +194,9 @@ def h_mask(kind, mask, old, new, width):
 
 
 H = {
-    "binary_fold": lambda right, n: tree(std.binary_fold(lambda a, b: (a, b), list(range(n)), right_fold=bool(right))),
+    "binary_fold": lambda right, n: std.binary_fold(lambda a, b: (a, b), list(range(n)), right_fold=bool(right)),
     "binary_fold_sub": lambda right, xs: std.binary_fold(lambda a, b: a - b, list(xs), right_fold=bool(right)),
-    "batched_fold": lambda n, bs: tree(std.batched_fold(lambda a, b: (a, b), list(range(n)), **({} if bs is None else {"batch_size": bs}))),
+    "batched_fold": lambda n, bs: std.batched_fold(lambda a, b: (a, b), list(range(n)), **({} if bs is None else {"batch_size": bs})),
     "batched_fold_sub": lambda xs, bs: std.batched_fold(lambda a, b: a - b, list(xs), batch_size=bs),
     "batch_args": lambda n, bs: [list(b) for b in CU._batch_args(list(range(n)), bs)],
     "concat": lambda xs: std.concat(*[VAL(x) for x in xs]),
